@@ -50,8 +50,8 @@ def plans_of(forms):
     return ps
 
 
-# quick: bodies of two statements over this 8-form core; thorough: all forms
-Q_CORE = ['aft', 'prt', 'forb', 'infor', 'insub', 'read', 'gsb', 'col']
+# quick: bodies of two statements over this 9-form core; thorough: all forms
+Q_CORE = ['aft', 'prt', 'forb', 'infor', 'insub', 'rdt', 'gsb', 'col', 'poke']
 # thorough: bodies of three statements over this 4-form core (a statement that
 # fails with operands pushed, a block header, a GOSUB body, a colon line)
 T_CORE = ['prt', 'forb', 'gsb', 'col']
